@@ -266,32 +266,28 @@ func checkC02(c *Ctx, r *Report) {
 	for _, tf := range c.FuncsNamed(proxyPkg + ".changeRequestToTarget") {
 		treq := tf.Params[0]
 		target := map[string]bool{}
-		// the value stored into req.URL, and everything stored into its fields
-		eachInstr(tf, func(in ssa.Instruction) {
-			st, ok := in.(*ssa.Store)
-			if !ok {
-				return
-			}
-			root, pth := fieldPath(st.Addr)
-			if resolveVal(root) == ssa.Value(treq) && len(pth) == 1 && pth[0] == "URL" {
-				collect := func(v ssa.Value) {
-					for k := range reqFieldSourcesCtx(v, nil, treq) {
-						target[k] = true
-					}
+		// the value stored into req.URL, and everything stored into the fields of a url.URL on the way
+		// (in this function or in the same-package helpers it was split into)
+		for _, hc := range helperContexts(tf, 2) {
+			eachInstr(hc.fn, func(in ssa.Instruction) {
+				st, ok := in.(*ssa.Store)
+				if !ok {
+					return
 				}
-				collect(st.Val)
-				// fields written through the new URL pointer before it is installed
-				if refs := resolveVal(st.Val).Referrers(); refs != nil {
-					for _, ref := range *refs {
-						if fa, ok := ref.(*ssa.FieldAddr); ok {
-							for _, s2 := range storesTo(fa) {
-								collect(s2.Val)
-							}
-						}
-					}
+				isURLField := false
+				if _, base, is := fieldOf(st.Addr); is && structName(base.Type()) == "net/url.URL" {
+					isURLField = true
 				}
-			}
-		})
+				root, pth := ctxFieldPath(st.Addr, hc.ctx)
+				isReqURL := root == ssa.Value(treq) && len(pth) == 1 && pth[0] == "URL"
+				if !isURLField && !isReqURL {
+					return
+				}
+				for k := range reqFieldSourcesCtx(st.Val, hc.ctx, treq) {
+					target[k] = true
+				}
+			})
+		}
 		keyS := map[string]bool{}
 		for k := range srcs {
 			if k != "Method" && k != "TLS" && k != "URL" {
